@@ -51,6 +51,12 @@ def cases(tier, seed):
                     yield {'grid': 'B', 'cmax': 1024, 'smax': 16384, 'ts': 1, 'size': 'F+1', 'shape': 'flat', 'source': source,
                            'recep': 'file', 'outcome': outcome, 'entity': entity, 'hist': hist, 'bound': 0, 'seg': None, 'seed': seed,
                            'pre_scu': (len(hist) + len(outcome)) % 2 == 0}
+    # an application-supplied get_file (documented hook returning (file, start)) that appends every instance to one archive file:
+    # from the second store on, start is not 0
+    for hist in ('A', 'AB', 'ABA'):
+        for source in ('dataset', 'file'):
+            yield {'grid': 'B', 'cmax': 1024, 'smax': 16384, 'ts': 1, 'size': 'F+1', 'shape': 'flat', 'source': source,
+                   'recep': 'file', 'outcome': 'ok', 'entity': 'append-archive', 'hist': hist, 'bound': 0, 'seg': None, 'seed': seed}
     # grid D: the client proposes two transfer syntaxes, the provider supports only one of them (whatever the proposal order)
     for cts in ([0, 1], [1, 2], [0, 2]):
         for sts in cts:
@@ -133,6 +139,17 @@ def make_scenario(case, tmp):
                 on_receive_store = handle_store
             ae = Srv(storedir, 'SCP', 0, [ts], case['smax'])
             ae.server_close()
+        elif case['entity'] == 'append-archive':
+            arch = os.path.join(storedir, 'archive.bin')
+
+            class Srv3(applicationentity.AE):
+                on_receive_store = handle_store
+
+                def get_file(self, context, command_set):
+                    fp = open(arch, 'a+b')
+                    fp.seek(0, 2)
+                    return fp, fp.tell()
+            ae = assoc.make_ae('SCP', [ts], case['smax'], [], cls=Srv3)
         else:
             class Srv2(applicationentity.AE):
                 on_receive_store = handle_store
@@ -236,6 +253,10 @@ def judge(case, out, storedir):
             if got != raw:
                 viol.append((sig + ':content', 'store #%d: handler received %d bytes, %d were sent; first difference at %s (%s)' % (
                     k + 1, len(got), len(raw), next((i for i in range(min(len(got), len(raw))) if got[i] != raw[i]), 'end'), where)))
+        elif case['entity'] == 'append-archive':
+            if got != raw:
+                viol.append((sig + ':content', 'store #%d into an appending archive: the file handed to the handler reads %d bytes from its position, the %d '
+                             'transmitted bytes were expected (%s)' % (k + 1, len(got), len(raw), where)))
         else:
             try:
                 meta, body = _split_file(got)
